@@ -447,7 +447,7 @@ class QvmCode(BaseCode):
                 binary_expr = expr.BinaryOp(left, right, op)
                 try:
                     value = binary_expr.eval()
-                except (OverflowError, ZeroDivisionError):
+                except (OverflowError, ZeroDivisionError, ValueError):
                     i += 1
                     continue
 
